@@ -30,6 +30,7 @@ def run(db, chk) -> None:
     _sites(db, chk, m)
     _validation(db, chk, m)
     _api(db, chk, m)
+    _window(db, chk, m)
 
 
 # ------------------------------------------------------------------------------------------ R1 nodes
@@ -365,3 +366,74 @@ def _api(db, chk, m):
     chk.ob(rule, "construction path: no DataFrame.drop(axis=..., columns=...) (rejected by the installed pandas: analysis would fail for every trace)", not bad, CP, found=bad, accepted="drop(columns=...)",
            key="hta.analyzers.critical_path_analysis|drop-axis-and-columns")
     chk.analysed_add("construction_closure", closure)
+
+
+def _window(db, chk, m):
+    """window clipping: a launch call is analysed iff the device activity it launched is (same window predicate on the launch call's ts and dur)"""
+    rule = "C08.R6-window-clipping"
+    ref = f"{CP}:CriticalPathAnalysis.critical_path_analysis"
+    fn = m.func("CriticalPathAnalysis.critical_path_analysis")
+    where = m.loc(fn)
+    TD = ("param", "TD")
+    built = []
+
+    def hook(I, name, pos, kw, node):
+        if name == "t.get_trace":
+            return Frame(TD)
+        if name == "t.symbol_table.get_sym_id_map":
+            return {"cuda_sync": 1, "ANNOT": 7, "Stream Wait Event": 9}
+        if name == "deepcopy":
+            return Obj("t_copy", attrs={"traces": {}})
+        if name == "CPGraph":
+            built.append(pos)
+            return Obj("cp_graph")
+        if name.endswith(".critical_path"):
+            return True
+        return NotImplemented
+
+    I = Interp(db, call_hook=hook)
+    runs = [r for r in I.explore(ref, lambda I: {"cls": Obj("cls"), "t": Obj("t", attrs={"symbol_table": Obj("symtab")}), "rank": T.P("rank"), "annotation": "ANNOT", "instance_id": 0}) if r.raised is None]
+    chk.analysed_add("functions", ref)
+    runs = [r for r in runs if built]
+    if len(runs) != 1:
+        chk.ob(rule, "critical_path_analysis(annotation, instance 0): one path reaching graph construction", None, where, found=len(runs))
+        return
+    r = runs[0]
+    filt = [e for e in r.events if e["kind"] == "filter" and e["how"] == "query" and e["func"].endswith("critical_path_analysis")]
+    if len(filt) != 2:
+        chk.ob(rule, "two window queries (host events, device activities)", None, where, found=len(filt))
+        return
+    host, dev = filt
+    S = [s for s in T.subterms(host["pred"]) if isinstance(s, tuple) and s and s[0] == "agg"]
+    def shape(pred, tscol, durcol):
+        """{'lo': op on ts vs window start, 'hi': op vs window end, 'dur': op}"""
+        out = {}
+        for a in T.bool_atoms(pred):
+            if a[0] != "cmp":
+                continue
+            d, k = T.as_lin(a[2])
+            cols = [c for c in d if c[0] in ("col", "jl", "jr", "nullable")]
+            aggs = [c for c in d if c[0] == "agg" or (c[0] == "at")]
+            txt = T.show(a)
+            if any(tscol in T.show(c) for c in cols) and aggs:
+                fn_ = "min" if "min[" in txt else "max" if "max[" in txt else "?"
+                coef = [d[c] for c in cols if tscol in T.show(c)][0]
+                op = a[1] if coef > 0 else {"<": ">", "<=": ">=", ">": "<", ">=": "<="}[a[1]]
+                out["lo" if fn_ == "min" else "hi"] = op
+            elif any(durcol in T.show(c) for c in cols) and not aggs:
+                coef = [d[c] for c in cols if durcol in T.show(c)][0]
+                out["dur"] = a[1] if coef > 0 else {"<": ">", "<=": ">=", ">": "<", ">=": "<="}[a[1]]
+        return out
+    hs = shape(host["pred"], ".ts", ".dur")
+    ds = shape(dev["pred"], ".ts", ".dur")
+    # device atoms must be on the RUNTIME (launch) columns
+    dev_cols_ok = all(("jr(" in T.show(a) or "name" in T.show(a)) for a in T.bool_atoms(dev["pred"]))
+    chk.ob(rule, "host events selected: start within the window (either boundary convention) and positive duration", hs.get("lo") in (">=", ">") and hs.get("hi") in ("<=", "<") and hs.get("dur") == ">" and len(hs) == 3,
+           where, found=hs, accepted={"lo": ">= | >", "hi": "<= | <", "dur": ">"})
+    chk.ob(rule, "device activities selected through THE SAME predicate on their launch call's ts and dur (or Stream Wait Event records)", ds == hs and dev_cols_ok, where, found={"device": ds, "host": hs, "on_launch_columns": dev_cols_ok},
+           accepted="identical comparison operators on ts_runtime / dur_runtime",
+           why="if the two windows differ at a boundary a kernel is kept without its launch call (or vice versa): the launch nodes are missing and graph construction asserts")
+    j = [e for e in r.events if e["kind"] == "join" and e["func"].endswith("critical_path_analysis")]
+    okj = len(j) == 1 and j[0]["how"] == "left" and j[0]["right_key_terms"] == (T.col(TD, "index_correlation"),) and j[0]["left_key_terms"] == (("index", TD),)
+    chk.ob(rule, "a device activity is matched with the host call whose index_correlation is the activity's id", okj, where, found=[(e["how"], T.show(e["left_key_terms"])[:60], T.show(e["right_key_terms"])[:60]) for e in j],
+           accepted="gpu rows (indexed by event id) joined with host rows indexed by index_correlation")
